@@ -5,6 +5,7 @@ CONSTANTS
   Offs = {0, 1, 2}
   NSamples = {1, 3, 8}
   Seeds = {0, 7, 42}
+  BigN = {600001, 1500000}
 INIT Init
 NEXT Next
 CHECK_DEADLOCK FALSE
